@@ -24,8 +24,9 @@ chk("C12",
 chk("C16",
     "TLC proves the UTF-8 automaton equal to the declarative Unicode Table 3-7 definition on all byte-class strings up to "
     "length 4 (quick) / 5 (thorough) and that the classes partition 0..255, then emits the transition table, which the harness "
-    "executes as data against the exported diplomat_is_str over ALL byte strings of length <=3, ALL 4-byte strings with lead "
-    "F0..F7 and seeded near-valid mutations. SliceView.tla models export/NULL/deref/import/drop of the five view kinds; every "
+    "executes as data against the exported diplomat_is_str over ALL byte strings of length <=3 (and NULL+0), ALL 4-byte strings with lead "
+    "F0..F7 and seeded near-valid mutations. SliceView.tla models export/NULL/deref/import/drop of the five view kinds over whole "
+    "buffers and sub-ranges of a live buffer (incl. the empty range with a real pointer); every "
     "TLC-enumerated behaviour is replayed on the real runtime types for 12 element types with pointer class, length, contents "
     "and allocation-release counts compared after each step. Two negative models must be refuted.",
     "Trusts TLC, rustc, Unicode Table 3-7 as transcribed, the quarantining allocator of the harness. UB checks of the standard "
@@ -162,7 +163,8 @@ chk("C07",
 chk("C01",
     "spec/abi/CallProtocol.tla is the call/return state machine between a foreign caller and the Rust method bodies (CCall, Enter "
     "with exactly the caller's tokens, Return, CReturn, nested callbacks, refused calls); TLC checks WellNested, AtMostOnce, "
-    "ReturnedMeansEntered, RejectedNeverEnters. spec/abi/Abi.tla gives every slot's C shape, size and alignment. The catalogue "
+    "ReturnedMeansEntered, RejectedNeverEnters, NoUseAfterDrop (callback objects handed over with a call may be invoked only "
+    "while alive, are destroyed exactly once and before the caller resumes). spec/abi/Abi.tla gives every slot's C shape, size and alignment. The catalogue "
     "(206 structured-coverage signatures + TLC-simulated multi-parameter ones) x value vectors (extremes, NaN payloads, non-scalar "
     "DiplomatChar, NULL+0 and empty slices, invalid UTF-8/UTF-16 in unvalidated strings, every Option/Result arm) is compiled with "
     "the real proc macro into a staticlib, declared by the real C backend and driven from a gcc -fsanitize=address,undefined "
@@ -170,7 +172,10 @@ chk("C01",
     "CReturn/CWrite in program order: tokens must be equal across the boundary and equal to the spec's expectation, struct "
     "layouts (sizeof/_Alignof/offsetof vs size_of/align_of/offset_of! vs Layout) must agree, every prototype must be "
     "pointer-compatible with the spec's scalar types and have the spec's size/alignment for aggregates, and the whole log is "
-    "validated by Trace_CallProtocol.tla (exactly once, in order); a corrupted token must be rejected.",
+    "validated by Trace_CallProtocol.tla (exactly once, in order); a corrupted token must be rejected. Callback parameters "
+    "(35 `impl Fn` signatures over primitive/enum/struct arguments and results): the Rust body invokes the callback per a "
+    "script, the C callback logs what it receives and answers from the script (CbInvoke/CbEnter/CbReturn/CbResult), its "
+    "destructor logs CbDrop; run_callback's C type must equal the spec's native signature.",
     "x86-64 SysV, gcc 12. Pointers are compared between the two sides. &str arguments are valid UTF-8 (caller's obligation). "
     "Callbacks and traits are covered by the C++ leg (C02) only.",
     "TLA+ spec + TLC; spec->impl replay (compiled and executed) and impl->spec trace validation",
@@ -199,9 +204,11 @@ chk("C02",
     "and received by C++ must be equal and equal to the spec's expectation; every direct &str parameter is additionally called "
     "with invalid UTF-8 and must yield the Utf8Error arm without any RustEnter event; event logs are validated by "
     "Trace_CallProtocol.tla. The repository's feature_tests crate is built and its own cpp/tests/*.cpp programs are compiled "
-    "against freshly generated headers (with the standard its Makefile uses) and must pass.",
-    "x86-64, g++ 12. result<const T&, Utf8Error> combinations are skipped by the driver generator. std::function callbacks, "
-    "namespaces and renames are exercised through the feature_tests programs.",
+    "against freshly generated headers (with the standard its Makefile uses) and must pass. std::function callbacks run the "
+    "same scripts as in C01 (a DropLog captured by the callable reports the destruction of the heap copy the binding owns); "
+    "a sample of the calls is repeated with every type moved into nested / shared-prefix / disjoint C++ namespaces and some "
+    "types renamed (the driver reaches them through aliases).",
+    "x86-64, g++ 12. result<const T&, Utf8Error> combinations are skipped by the driver generator.",
     "TLA+ spec + TLC; spec->impl replay (compiled and executed, two C++ standards) and impl->spec trace validation",
     "DESIGN.md §5 C02")
 
@@ -225,12 +232,12 @@ chk("C09",
     "EveryHeaderCompilesAlone for every reference graph on 2 (quick) / 3 (thorough, 23k graphs) types with cycles through pointers "
     "and methods, and refutes the design without by-value includes. spec/pipeline/Pipeline.tla carries AcceptedBuilds. Program sets: "
     "TLC-enumerated reference graphs decorated with namespaces, renames and keyword-named parameters; every shape the Gate spec "
-    "accepts for the C profile; feature_tests and example. For each set the macro expansion is compiled by rustc (errors are "
+    "accepts, per backend profile (C, C++, JS; minus shapes C15 records as crashing that backend); feature_tests and example. For each set the macro expansion is compiled by rustc (errors are "
     "attributed to the shape via one bridge module per shape, and the remaining shapes must build together), every .h is compiled "
     "alone as C11, every .hpp alone as C++17 and C++20, all headers in shuffled orders, every .mjs goes through node --check and an "
     "import-resolution pass; the Build events are validated by Trace_Pipeline.tla.",
     "Well-formedness is judged by rustc 1.95, gcc/g++ 12, node 20. Rust raw identifiers and callback results that borrow are outside "
-    "the grammar (rustc or the language itself refuses them). Five classes of accepted-but-not-building shapes found on the "
+    "the grammar (rustc or the language itself refuses them). Seven classes of accepted-but-not-building shapes found on the "
     "unchanged tree are recorded in known_findings.json keyed by shape pattern and compiler message.",
     "TLA+ spec + TLC (design-level include discipline); impl->spec trace validation of build events from real compilers",
     "DESIGN.md §5 C09")
